@@ -82,7 +82,7 @@ def handlers():
 
 
 def raised():
-    out = []
+    out = [[]]       # a failure without children: the unspecialised Concurrent()
     for n in (1, 2, 3):
         for combo in itertools.combinations_with_replacement(range(len(CHILD_KINDS)), n):
             out.append([CHILD_KINDS[i] for i in combo])
@@ -146,14 +146,21 @@ def explore_case(case, tier):
             real_h = [real(h) for h in hs]
             for kinds in raised():
                 exc = Concurrent(*[instance(k) for k in kinds])
-                ctype = C(set(kinds))
+                ctype = C(set(kinds)) if kinds else BARE
                 for h, rh in zip(hs, real_h):
                     want = ref_sub(ctype, h)
                     n += 1
-                    if want and not (h == ctype) or (not want and h != BARE and any(ref_sub(c, s) for c in ctype[1] for s in h[1])):
+                    if want and not (h == ctype) or (not want and h != BARE and ctype != BARE
+                                                     and any(ref_sub(c, s) for c in ctype[1] for s in h[1])):
                         nontrivial += 1
-                    got_i = isinstance(exc, rh)
-                    got_s = issubclass(type(exc), rh)
+                    try:
+                        got_i = isinstance(exc, rh)
+                    except Exception as e:      # noqa
+                        got_i = e
+                    try:
+                        got_s = issubclass(type(exc), rh)
+                    except Exception as e:      # noqa
+                        got_s = e
                     try:
                         try:
                             raise exc
@@ -161,6 +168,10 @@ def explore_case(case, tier):
                             got_e = True
                     except BaseException:
                         got_e = False
+                    if isinstance(got_i, Exception) or isinstance(got_s, Exception):
+                        viol.append({'faults': {'mechanism': 'error'}, 'msgs': ['%s: matching a failure with children [%s] against %s raised %r / %r' % (
+                            case['policy'], ', '.join(describe(k) for k in kinds), describe(h), got_i, got_s)]})
+                        continue
                     for mech, got in (('isinstance', got_i), ('issubclass', got_s), ('except', got_e)):
                         if got != want:
                             in_mro = rh in type(exc).__mro__
@@ -175,7 +186,7 @@ def explore_case(case, tier):
 
 def identity_checks():
     msgs = []
-    kinds_list = raised()
+    kinds_list = [k for k in raised() if k]
     for kinds in kinds_list:
         base = type(Concurrent(*[instance(k) for k in kinds]))
         for perm in set(itertools.permutations(kinds)):
